@@ -21,7 +21,6 @@ EXTENDS TzIndex, TLC, Json, IOUtils
 Cases == JsonDeserialize(IOEnv.TRACE_FILE)
 N == Len(Cases)
 VARIABLES i, bad
-Range(s) == {s[k] : k \in 1..Len(s)}
 B(x) == IF x THEN 1 ELSE 0
 
 HarnessFails(in, out) ==
@@ -58,7 +57,7 @@ RECURSIVE Cumul(_, _, _)
 Cumul(sep, k, acc) == IF k > Len(sep) THEN acc ELSE Cumul(sep, k + 1, Append(acc, acc[Len(acc)] + sep[k]))
 ShapeFails(c) ==
   LET z == [u |-> IF Len(c.o) = 1 THEN <<>> ELSE Cumul(c.sep, 1, <<0>>), o |-> c.o]
-  IN IF Len(c.sep) = Len(c.o) - 2 /\ (\A k \in 1..Len(c.sep) : c.sep[k] > 0) /\ WellFormed(z)
+  IN IF Len(c.sep) = (IF Len(c.o) >= 2 THEN Len(c.o) - 2 ELSE 0) /\ (\A k \in 1..Len(c.sep) : c.sep[k] > 0) /\ WellFormed(z)
      THEN {} ELSE {F("C34.assume", "", 0)}
 
 JudgeFails(c) ==
